@@ -72,7 +72,7 @@ def run_counter(ctx, P):
 
 
 META = dict(
-    bounds=dict(quick="periods {2,3}, multipliers {default, 1.5/1.0}, n = warm-up+4 candles (Supertrend +3); Counter over 4 candles with symbolic present/missing x true/false inputs",
+    bounds=dict(quick="periods {2,3}, multipliers {default, 1.5/1.0}, n = warm-up+4 candles (Supertrend +3); Counter over 4 candles with symbolic present/missing x true/false inputs; TR, ATR, KC, BBANDS, Donchian, Supertrend (period 2) also over the T2 buckets of a stream fed one raw candle per append (6-8 candles)",
                 thorough="periods {2,3,4}, n = warm-up+5 (Supertrend +4); Counter over 6"),
     stubs=["float arithmetic -> exact real arithmetic", "round(x, 10) -> identity", "sqrt(v) -> s with s>=0, s*s=v", "max/min/abs -> If-terms"],
     assumptions=["STDEVTHRES flag is only decided when the move is clear of the threshold by 1e-6 relative", "deviation must exceed 1e-6*(1+|ref|) and reproduce on the real code"],
